@@ -207,7 +207,7 @@ def cases(tier: str, seed: int) -> List[Case]:
                         continue
                     if quick and n == 2 and (idx + seed) % 2 != 0 and "any" not in args:
                         continue
-                    if (not quick) and n == 3 and (idx + seed) % 3 != 0:
+                    if (not quick) and n == 3 and (idx + seed) % 12 != 0 and not keep:
                         continue
                     params = [list(k) for k in kinds]
                     out.append(Case("h15", _lab(kinds, tv, args), {"params": params, "tv": list(tv), "args": list(args), "perms": "some" if quick else "all"},
